@@ -168,7 +168,8 @@ def validate(ctx, events, shards=14):
     slim = []
     for e in events:
         if e["ev"] == "end":
-            e2 = {k: e[k] for k in ("ev", "outcome", "same")}
+            e2 = {k: e[k] for k in ("ev", "outcome", "same", "err", "calls", "nodbg", "nodbgErr", "nodbgSame", "scribble", "scribbleErr",
+                                    "scribbleSameSnapshots", "scribbleSameCalls") if k in e}
             slim.append(e2)
         elif e["ev"] == "begin":
             slim.append({k: e[k] for k in ("ev", "unlock", "lock", "genesis", "f", "ver", "lt", "seq")})
@@ -200,7 +201,7 @@ def validate(ctx, events, shards=14):
         return rej, len(obs), unm
     with ThreadPoolExecutor(max_workers=len(cuts) - 1) as ex:
         parts = list(ex.map(one, range(len(cuts) - 1)))
-    rejects = sorted(x for p in parts for x in p[0])
+    rejects = sorted((x for p in parts for x in p[0]), key=lambda r: r[0])
     return rejects, dict(hash_obligations=sum(p[1] for p in parts), unmodelled_traces=sum(p[2] for p in parts))
 
 
@@ -230,3 +231,137 @@ def describe(beg, end=None, why=None, at=None):
     if at is not None:
         d["step"] = at
     return d
+
+
+# ---------------------------------------------------------------------------------------------
+# random programs / mutated vectors (direction B inputs; the judge is ScriptVM.tla)
+EDGE = [b"", b"\x00", b"\x80", b"\x01", b"\x81", b"\x7f", b"\xff", b"\x02", b"\x10", b"\x11", b"\x00\x01", b"\x00\x80", b"\x01\x00",
+        b"\xff\x7f", b"\xff\xff", b"\xff\x00", b"\xff\xff\xff\x7f", b"\xff\xff\xff\xff", b"\x00\x00\x00\x80", b"\x00\x00\x00\x80\x00",
+        b"\xff\xff\xff\xff\x7f", bytes(range(1, 9)), b"\xff" * 8 + b"\x7f", bytes([7]) * 33, b"\x01" * 75, b"\x02" * 76, b"\xab" * 255,
+        b"\x05" * 256, b"\x03" * 520, b"\x04" * 521]
+NONSIG_OPS = [op for op in range(79, 186) if op not in SIGOPS]
+FLAG_POOL = ["P2SH", "DISCOURAGE_UPGRADABLE_NOPS", "CHECKLOCKTIMEVERIFY", "CHECKSEQUENCEVERIFY", "MINIMALDATA", "SIGPUSHONLY",
+             "MINIMALIF", "UTXO_AFTER_GENESIS", "NULLDUMMY", "STRICTENC", "NULLFAIL", "DERSIG", "LOW_S"]
+
+
+def minimal_push(x):
+    if len(x) == 0:
+        return b"\x00"
+    if len(x) == 1 and 1 <= x[0] <= 16:
+        return bytes([80 + x[0]])
+    if x == b"\x81":
+        return b"\x4f"
+    return A.push(x)
+
+
+def rand_item(rng):
+    r = rng.random()
+    if r < 0.7:
+        return rng.choice(EDGE[:24])
+    if r < 0.8:
+        return rng.choice(EDGE)
+    if r < 0.9:
+        return A.scriptnum(rng.randint(-70000, 70000))
+    return bytes(rng.getrandbits(8) for _ in range(rng.randint(1, 12)))
+
+
+def rand_push(rng):
+    x = rand_item(rng)
+    r = rng.random()
+    if r < 0.8:
+        return minimal_push(x)
+    if r < 0.9 and 0 < len(x) <= 75:
+        return bytes([len(x)]) + x
+    if r < 0.95 and len(x) <= 255:
+        return bytes([76, len(x)]) + x
+    return bytes([77]) + len(x).to_bytes(2, "little") + x
+
+
+def rand_script(rng, n):
+    out = b""
+    depth = 0
+    for _ in range(n):
+        r = rng.random()
+        if r < 0.45:
+            out += rand_push(rng)
+        elif r < 0.55:
+            op = rng.choice([99, 100, 103, 104, 106, 105, 101])
+            out += bytes([op])
+        elif r < 0.97:
+            out += bytes([rng.choice(NONSIG_OPS)])
+        else:
+            out += bytes([rng.choice([186, 200, 255, 80, 98, 137])])
+    return out
+
+
+def rand_flags(rng):
+    v = 0
+    for f in FLAG_POOL:
+        if rng.random() < (0.5 if f == "UTXO_AFTER_GENESIS" else 0.25):
+            v |= A.FLAGBITS[f]
+    if rng.random() < 0.1:
+        v |= A.FLAGBITS["CLEANSTACK"] | A.FLAGBITS["P2SH"]
+    return v
+
+
+def rand_txctx(rng):
+    ver = rng.choice([1, 1, 2, 2, 0, 0xffffffff])
+    lt = rng.choice([0, 1, 499999999, 500000000, 500000001, 0xffffffff, rng.getrandbits(32)])
+    seq = rng.choice([0xffffffff, 0xfffffffe, 0, 1, 1 << 22, (1 << 22) | 5, 1 << 31, rng.getrandbits(32)])
+    return ver, lt, seq
+
+
+def random_cases(ctx, n, tag="rand"):
+    rng = random.Random(ctx.seed * 7919 + 1)
+    out = []
+    for k in range(n):
+        split = rng.random()
+        if split < 0.3:
+            u, l = b"", rand_script(rng, rng.randint(1, 14))
+        else:
+            u, l = rand_script(rng, rng.randint(0, 5)), rand_script(rng, rng.randint(1, 10))
+        if rng.random() < 0.03:          # P2SH shaped
+            redeem = rand_script(rng, rng.randint(1, 5))
+            import hashlib
+            h = hashlib.new("ripemd160", hashlib.sha256(redeem).digest()).digest()
+            u, l = b"".join(minimal_push(rand_item(rng)) for _ in range(rng.randint(0, 2))) + A.push(redeem), b"\xa9\x14" + h + b"\x87"
+        ver, lt, seq = rand_txctx(rng)
+        out.append(mkcase("%s%d" % (tag, k), u, l, rand_flags(rng), tag, ver=ver, lt=lt, seq=seq))
+    return out
+
+
+def mutated_vectors(ctx, n):
+    """node vectors with an opcode substituted, an operand replaced by an edge operand, or flags flipped"""
+    rng = random.Random(ctx.seed * 104729 + 2)
+    vs = [v for v in load_vectors() if not has_sigop(v["unlock"]) and not has_sigop(v["lock"]) and len(v["lock"]) < 600]
+    out = []
+    for k in range(n):
+        v = rng.choice(vs)
+        u, l, fl = bytearray(v["unlock"]), bytearray(v["lock"]), v["flags"]
+        m = rng.random()
+        if m < 0.35:
+            fl ^= A.FLAGBITS[rng.choice(FLAG_POOL)]
+        elif m < 0.7 and len(l):
+            # substitute one opcode byte (walk the token structure to hit an opcode, not payload)
+            pos, i, b = [], 0, bytes(l)
+            while i < len(b):
+                op = b[i]
+                if op > 78:
+                    pos.append(i)
+                if 1 <= op <= 75:
+                    i += 1 + op
+                elif op in (76, 77, 78):
+                    w = {76: 1, 77: 2, 78: 4}[op]
+                    i += 1 + w + int.from_bytes(b[i + 1:i + 1 + w], "little")
+                else:
+                    i += 1
+            if pos:
+                l[rng.choice(pos)] = rng.choice(NONSIG_OPS)
+        else:
+            u = bytearray(bytes(u) + rand_push(rng)) if rng.random() < 0.5 else bytearray(rand_push(rng) + bytes(u))
+        if rng.random() < 0.3:
+            fl ^= A.FLAGBITS["UTXO_AFTER_GENESIS"]
+        if has_sigop(u) or has_sigop(l):
+            continue
+        out.append(mkcase("mut%d" % k, bytes(u), bytes(l), fl, "mutated-vector"))
+    return out
